@@ -961,11 +961,11 @@ func init() {
 	register(&property{
 		Meta: propertyMeta{
 			ID:          "C13",
-			Explanation: "(C13-GATE) must-pass-through at registration: goodInfo (nil handler, empty methods, unknown method -> panic), appendGroupInfo (handler limit) and, for dynamic routes, parseParamRoute (goodRegexString per variable, checkAndParseOptional before compiling, MustCompile, group-count check) dominate every insert into a route table or the name index; only fixed paths enter the static table; WithOptions applies options only under counter <= 0 and panics otherwise, and every tier insert increments the counter. (C13-MEMBER) method names are validated by exact comparison with anyMethods, never by substring search in the joined list. (C13-TOTAL) E-IDX over the lookup core (everything reachable from ServeHTTP/HandleContext/Match/QuickMatch, the default 404/405 handlers and the chain executor): every index/slice, unchecked type assertion, explicit panic, nil-able function-field call and field-map write is proved safe from dominating facts, proved post-conditions, call-site-checked pre-conditions, the registration invariant of C02-GROUPS, or a named entry of the frozen trusted table. (C05-LIMIT on Route.handlers, C07-GUARD, C02-GROUPS, PHASE) reused.",
+			Explanation: "(C13-GATE) must-pass-through at registration: goodInfo (nil handler, empty methods, unknown method -> panic), appendGroupInfo (handler limit) and, for dynamic routes, parseParamRoute (goodRegexString per variable, checkAndParseOptional before compiling, MustCompile, group-count check) dominate every insert into a route table or the name index; only fixed paths enter the static table; WithOptions applies options only under counter <= 0 and panics otherwise, and every tier insert increments the counter. (C13-OPTIONAL) checkAndParseOptional is evaluated abstractly on bracket profiles of the pattern (length, numbers of '[' and ']', trailing ']' run, last byte) through TrimRight/Count/len/HasSuffix/last-byte/integer arithmetic: profiles with a ']' outside the trailing run, or an unclosed '[', end in the panic on every path, well-formed ones return. (C13-MEMBER) method names are validated by exact comparison with anyMethods, never by substring search in the joined list. (C13-TOTAL) E-IDX over the lookup core (everything reachable from ServeHTTP/HandleContext/Match/QuickMatch, the default 404/405 handlers and the chain executor): every index/slice, unchecked type assertion, explicit panic, nil-able function-field call and field-map write is proved safe from dominating facts, proved post-conditions, call-site-checked pre-conditions, the registration invariant of C02-GROUPS, or a named entry of the frozen trusted table. (C05-LIMIT on Route.handlers, C07-GUARD, C02-GROUPS, PHASE) reused.",
 			NotDecided:  []string{"that every invalid pattern is recognised as invalid (regex metacharacters in literals, unbalanced braces that happen to compile)", "panics inside regexp, net/http, user handlers", "nil middleware values in a chain (dispatch, not matching)"},
 			Assumptions: []string{"the trusted discharges listed in idx.go (library contracts and the handler boundary)"},
 		},
-		Rules: []ruleFn{{"C13-GATE", ruleC13Gate}, {"C13-MEMBER", ruleC13Member}, {"C13-TOTAL", ruleC13Total}, {"C02-GROUPS", ruleC02Groups}, {"C07-GUARD", ruleC07Guard}, {"C05-LIMIT", ruleC05LimitRoute}, {"PHASE", rulePhase("PHASE")}},
+		Rules: []ruleFn{{"C13-GATE", ruleC13Gate}, {"C13-OPTIONAL", ruleC13Optional}, {"C13-MEMBER", ruleC13Member}, {"C13-TOTAL", ruleC13Total}, {"C02-GROUPS", ruleC02Groups}, {"C07-GUARD", ruleC07Guard}, {"C05-LIMIT", ruleC05LimitRoute}, {"PHASE", rulePhase("PHASE")}},
 	})
 }
 
@@ -1074,4 +1074,205 @@ func ruleC12Derived(r *Run) {
 		})
 	}
 	r.Exists(rule, "derived stores", ar.Pos(), n >= 2, fmt.Sprintf("%d store(s) into Route fields that depend on route.path, in the functions reachable from appendRoute", n))
+}
+
+// ---------------------------------------------------------------------------
+// C13-OPTIONAL — an optional part that is not at the end of the pattern is rejected.
+//
+// checkAndParseOptional is evaluated abstractly on bracket profiles of the pattern instead of on
+// strings: a string is summarised by (length, number of '[', number of ']', number of trailing ']',
+// last byte is ']'). strings.TrimRight(x, "]"), strings.Count(x, "["/"]"), len, x[len(x)-1],
+// strings.HasSuffix(x, "]") and integer arithmetic act on summaries; anything else is unknown and
+// both branches are followed. Profiles with a ']' that is not in the trailing run must end in the
+// panic on every path; well-formed profiles (all ']' trailing, as many as '[') must return.
+
+type optStr struct {
+	n, open, close, trail int
+	lastClose             bool
+}
+
+type optVal struct {
+	kind byte // 'i' int, 's' string summary, 'b' bool, 0 unknown
+	i    int
+	s    optStr
+	b    bool
+}
+
+func ruleC13Optional(r *Run) {
+	w := r.W
+	rule := "C13-OPTIONAL"
+	r.Floor(rule, 4)
+	cpo := w.Fn("rux", "checkAndParseOptional")
+	if len(cpo.Params) != 1 {
+		r.Undecided(rule, "rux.checkAndParseOptional:signature", cpo.Pos(), "expected one string parameter")
+		return
+	}
+	type profile struct {
+		name string
+		s    optStr
+		bad  bool
+	}
+	profiles := []profile{
+		{"'[..]..[..]' (a closed optional part followed by more)", optStr{n: 24, open: 2, close: 2, trail: 1, lastClose: true}, true},
+		{"'[..]..' (optional part in the middle)", optStr{n: 24, open: 1, close: 1, trail: 0, lastClose: false}, true},
+		{"'[..' (never closed)", optStr{n: 24, open: 1, close: 0, trail: 0, lastClose: false}, true},
+		{"'..[..[..]]' (nested, all closing brackets at the end)", optStr{n: 24, open: 2, close: 2, trail: 2, lastClose: true}, false},
+		{"'..[..]' (one optional part at the end)", optStr{n: 24, open: 1, close: 1, trail: 1, lastClose: true}, false},
+	}
+	for _, pf := range profiles {
+		env := map[ssa.Value]optVal{cpo.Params[0]: {kind: 's', s: pf.s}}
+		var eval func(v ssa.Value, pred map[*ssa.BasicBlock]*ssa.BasicBlock, d int) optVal
+		eval = func(v ssa.Value, pred map[*ssa.BasicBlock]*ssa.BasicBlock, d int) optVal {
+			if d > 20 {
+				return optVal{}
+			}
+			v = resolveAlong(v, pred)
+			if ev, ok := env[v]; ok {
+				return ev
+			}
+			switch x := v.(type) {
+			case *ssa.Const:
+				if k, ok := constInt(x); ok {
+					return optVal{kind: 'i', i: int(k)}
+				}
+				if x.Value != nil && x.Value.Kind() == constant.Bool {
+					return optVal{kind: 'b', b: constant.BoolVal(x.Value)}
+				}
+			case *ssa.Convert:
+				return eval(x.X, pred, d+1)
+			case *ssa.ChangeType:
+				return eval(x.X, pred, d+1)
+			case *ssa.UnOp:
+				if x.Op == token.NOT {
+					if a := eval(x.X, pred, d+1); a.kind == 'b' {
+						return optVal{kind: 'b', b: !a.b}
+					}
+				}
+			case *ssa.Call:
+				if isBuiltin(x, "len") {
+					if a := eval(x.Call.Args[0], pred, d+1); a.kind == 's' {
+						return optVal{kind: 'i', i: a.s.n}
+					}
+				}
+				switch calleeName(x) {
+				case "strings.TrimRight":
+					a := eval(x.Call.Args[0], pred, d+1)
+					if cs, ok := constString(x.Call.Args[1]); ok && cs == "]" && a.kind == 's' {
+						t := a.s
+						t.n -= t.trail
+						t.close -= t.trail
+						t.trail, t.lastClose = 0, false
+						return optVal{kind: 's', s: t}
+					}
+				case "strings.Count":
+					a := eval(x.Call.Args[0], pred, d+1)
+					if cs, ok := constString(x.Call.Args[1]); ok && a.kind == 's' {
+						switch cs {
+						case "[":
+							return optVal{kind: 'i', i: a.s.open}
+						case "]":
+							return optVal{kind: 'i', i: a.s.close}
+						}
+					}
+				case "strings.HasSuffix":
+					a := eval(x.Call.Args[0], pred, d+1)
+					if cs, ok := constString(x.Call.Args[1]); ok && cs == "]" && a.kind == 's' {
+						return optVal{kind: 'b', b: a.s.lastClose}
+					}
+				}
+			case *ssa.Index, *ssa.Lookup:
+				// x[len(x)-1]: the last byte (only its being ']' is known)
+				var sx, ix ssa.Value
+				if q, ok := x.(*ssa.Index); ok {
+					sx, ix = q.X, q.Index
+				} else {
+					q := x.(*ssa.Lookup)
+					sx, ix = q.X, q.Index
+				}
+				a, i := eval(sx, pred, d+1), eval(ix, pred, d+1)
+				if a.kind == 's' && i.kind == 'i' && i.i == a.s.n-1 {
+					if a.s.lastClose {
+						return optVal{kind: 'i', i: ']'}
+					}
+					return optVal{kind: 'i', i: 'x'}
+				}
+			case *ssa.BinOp:
+				a, b := eval(x.X, pred, d+1), eval(x.Y, pred, d+1)
+				if a.kind == 'i' && b.kind == 'i' {
+					switch x.Op {
+					case token.ADD:
+						return optVal{kind: 'i', i: a.i + b.i}
+					case token.SUB:
+						return optVal{kind: 'i', i: a.i - b.i}
+					case token.EQL:
+						return optVal{kind: 'b', b: a.i == b.i}
+					case token.NEQ:
+						return optVal{kind: 'b', b: a.i != b.i}
+					case token.LSS:
+						return optVal{kind: 'b', b: a.i < b.i}
+					case token.LEQ:
+						return optVal{kind: 'b', b: a.i <= b.i}
+					case token.GTR:
+						return optVal{kind: 'b', b: a.i > b.i}
+					case token.GEQ:
+						return optVal{kind: 'b', b: a.i >= b.i}
+					}
+				}
+			}
+			return optVal{}
+		}
+		panics, returns, unknowns := 0, 0, 0
+		steps := 0
+		var walk func(b *ssa.BasicBlock, pred map[*ssa.BasicBlock]*ssa.BasicBlock)
+		walk = func(b *ssa.BasicBlock, pred map[*ssa.BasicBlock]*ssa.BasicBlock) {
+			steps++
+			if steps > 2000 {
+				unknowns++
+				return
+			}
+			for _, in := range b.Instrs {
+				if panicsAt(in) {
+					panics++
+					return
+				}
+				if _, ok := in.(*ssa.Return); ok {
+					returns++
+					return
+				}
+			}
+			succs := b.Succs
+			if iff, ok := b.Instrs[len(b.Instrs)-1].(*ssa.If); ok {
+				switch ev := eval(iff.Cond, pred, 0); {
+				case ev.kind == 'b' && ev.b:
+					succs = b.Succs[:1]
+				case ev.kind == 'b' && !ev.b:
+					succs = b.Succs[1:2]
+				default:
+					unknowns++
+				}
+			}
+			for _, s := range succs {
+				if _, seen := pred[s]; seen {
+					continue
+				}
+				np := map[*ssa.BasicBlock]*ssa.BasicBlock{}
+				for k, v := range pred {
+					np[k] = v
+				}
+				np[s] = b
+				walk(s, np)
+			}
+		}
+		walk(cpo.Blocks[0], map[*ssa.BasicBlock]*ssa.BasicBlock{})
+		ok := false
+		detail := ""
+		if pf.bad {
+			ok = panics > 0 && returns == 0
+			detail = map[bool]string{true: "rejected (panic) on every path", false: fmt.Sprintf("a pattern of the shape %s is accepted (%d returning path(s), %d panicking, %d undecided branch(es)): an optional part that is not at the end compiles into a regexp that matches something else than the pattern says", pf.name, returns, panics, unknowns)}[ok]
+		} else {
+			ok = returns > 0 && panics == 0
+			detail = map[bool]string{true: "accepted on every path", false: fmt.Sprintf("a well-formed pattern of the shape %s is rejected", pf.name)}[ok]
+		}
+		r.Check(rule, "rux.checkAndParseOptional:"+pf.name, cpo.Pos(), ok, detail)
+	}
 }
